@@ -30,6 +30,8 @@ pub fn cfg() -> Cfg {
         MatcherKind::Func,
         MatcherKind::Macro(0),
         MatcherKind::MacroEq(0),
+        MatcherKind::FuncDebug,
+        MatcherKind::NoFunc,
     ];
     cfg.max_clauses = 6;
     cfg.max_stub_pats = 6;
